@@ -132,6 +132,10 @@ def rand_start(rng, kind):
 def cases(tier, seed):
     for c in corner_cases():
         yield c
+    # compositions of tens to thousands of variables (a loop over getters has no depth limit)
+    for n in (17, 64, 65, 300, 1200, 2500):
+        for typed in (0, 1):
+            yield {"k": "longcompose", "n": n, "typed": typed}
     for shape in DATA_SHAPES:
         for form in ("single", "compose", "sequence", "combine"):
             yield {"k": "shapes", "shape": shape, "form": form}
@@ -1024,10 +1028,53 @@ def run_sharedtail(r, obs):
                       % (head_own.name, r["via"], got, exp))
 
 
+def run_longcompose(r, obs):
+    import lena.variables as LV
+    n = r["n"]
+    obs.nontrivial = True
+
+    def mk():
+        vs = []
+        for i in range(n):
+            kw = {"type": "t%d" % i} if r["typed"] else {}
+            vs.append(LV.Variable("v%d" % i, (lambda x, i=i: x + (i % 7) + 1), **kw))
+        return vs
+    for start in (0, (3, {"run": 1})):
+        try:
+            comp = LV.Compose(*mk())
+            got = comp(start)
+        except Exception as e:  # pylint: disable=broad-except
+            obs.fail("long-compose-raises:" + type(e).__name__,
+                     "Compose of %d variables applied to %r raised %r" % (n, start, e))
+            return
+        cur = start
+        for v in mk():
+            cur = v(cur)
+        obs.count("long_compositions")
+        gd, gc = got
+        cd, cc = cur
+        obs.check(gd == cd, "long-compose-data-differs",
+                  "Compose of %d variables applied to %r gives data %r, the getters applied one "
+                  "after the other %r" % (n, start, gd, cd))
+        # the description of the last variable, and of every typed one under its type
+        gv, cv = gc.get("variable", {}), cc.get("variable", {})
+        same = gv.get("name") == cv.get("name")
+        if r["typed"]:
+            same = same and all(gv.get("t%d" % i) == cv.get("t%d" % i) for i in range(n))
+            same = same and gv.get("compose") == cv.get("compose")
+        obs.check(same, "long-compose-context-differs",
+                  "Compose of %d %svariables applied to %r: context.variable name %r / %d keys, "
+                  "the variables applied one after the other give name %r / %d keys"
+                  % (n, "typed " if r["typed"] else "", start, gv.get("name"), len(gv),
+                     cv.get("name"), len(cv)))
+
+
 def run_case(r, obs):
     del CONSTRUCTION_CHANGES[:]
     try:
-        if r["k"] == "sharedtail":
+        if r["k"] == "longcompose":
+            run_longcompose(r, obs)
+        elif r["k"] == "sharedtail":
             run_sharedtail(r, obs)
         elif r["k"] == "chain":
             run_chain(r, obs)
